@@ -27,6 +27,7 @@ type Env struct {
 	depth   int
 	cur     *State // the current state while compiling inside old(...)
 	binders int    // number of enclosing genuine (non-Skolemised) quantifiers
+	entryWm *Term  // watermark at entry of the function under verification (for owned())
 }
 
 func (e *Env) with(name string, v Value) *Env {
@@ -966,6 +967,17 @@ func (env *Env) callExpr(e *Expr, pol int) Value {
 		}
 		x := env.compile(e.Args[0], 0)
 		return boolVal(And(Gt(x.C[0], env.old.wm), Le(x.C[0], env.st.wm)))
+	case "owned":
+		// allocated by the current activation of the function under verification (since its entry)
+		x := env.compile(e.Args[0], 0)
+		wm := env.entryWm
+		if wm == nil && env.fr != nil && env.fr.entry != nil {
+			wm = env.fr.entry.wm
+		}
+		if wm == nil {
+			return boolVal(False)
+		}
+		return boolVal(And(Gt(x.C[0], wm), Le(x.C[0], env.st.wm)))
 	case "allocated":
 		x := env.compile(e.Args[0], 0)
 		return boolVal(And(Gt(x.C[0], IntLit(0)), Le(x.C[0], env.st.wm)))
